@@ -91,19 +91,25 @@ struct runner {
 		case 0: do_store(o); break;
 		case 1: {
 			std::string v = "UNSET"; std::set<std::string> tr; time_t dl = -7; uint64_t gen = 0;
-			bool hit = c->fetch(o.key, &v, &tr, &dl, &gen);
+			// which outputs the caller asks for must not matter: a probe (null value pointer) or a value-only fetch is a fetch
+			// like any other - it hits or misses the same way and makes the entry the most recently used one
+			uint64_t hsh = trace.size() * 0x9E3779B97F4A7C15ull + o.key.size() * 0xBF58476D1CE4E5B9ull + (o.key.empty() ? 0 : (unsigned char)o.key[o.key.size() - 1]) * 0x94D049BB133111EBull;
+			unsigned shape = (unsigned)((hsh ^ (hsh >> 29)) >> 7) & 7; // 0..3 full, 4 metadata only, 5 value only, 6 bare probe, 7 value + deadline
+			bool want_v = shape <= 3 || shape == 5 || shape == 7, want_t = shape <= 4, want_d = shape <= 4 || shape == 7;
+			bool hit = c->fetch(o.key, want_v ? &v : 0, want_t ? &tr : 0, want_d ? &dl : 0, shape <= 3 ? &gen : 0);
+			O().count(shape <= 3 ? "fetch_full" : "fetch_partial_outputs");
 			auto p = m.e.find(o.key);
 			bool want = p != m.e.end() && p->second.deadline >= now;
 			if (hit && !want) viol(p == m.e.end() ? "cache:hit-for-removed-or-invalidated-key" : "cache:hit-after-deadline", hex(o.key));
 			else if (!hit && want) viol("cache:miss-for-live-entry", hex(o.key));
 			else if (hit) {
 				O().count("hits");
-				if (v != p->second.value) viol("cache:hit-returns-wrong-value", hex(o.key));
-				if (tr != p->second.trig) viol("cache:hit-returns-wrong-trigger-set", hex(o.key));
-				if (dl != p->second.deadline) viol("cache:hit-returns-wrong-deadline", hex(o.key));
+				if (want_v ? v != p->second.value : v != "UNSET") viol("cache:hit-returns-wrong-value", hex(o.key));
+				if (want_t ? tr != p->second.trig : !tr.empty()) viol("cache:hit-returns-wrong-trigger-set", hex(o.key));
+				if (want_d ? dl != p->second.deadline : dl != -7) viol("cache:hit-returns-wrong-deadline", hex(o.key));
 				m.touch(o.key);
-				// the short overload must agree
-				std::string v2; if (!c->fetch(o.key, v2) || v2 != v) viol("cache:fetch-overloads-disagree", hex(o.key));
+				// the short overload must agree (only after a full fetch, so that a partial one stands alone as the entry's last use)
+				if (shape <= 3) { std::string v2; if (!c->fetch(o.key, v2) || v2 != v) viol("cache:fetch-overloads-disagree", hex(o.key)); }
 			} else { O().count(p == m.e.end() ? "misses_absent" : "misses_expired"); if (v != "UNSET" || !tr.empty()) viol("cache:miss-modified-outputs", hex(o.key)); }
 			break;
 		}
